@@ -272,6 +272,9 @@ func TestC18(t *testing.T) {
 		}
 		ev.Class("kind=" + c.Base.T.K)
 		ev.Class(fmt.Sprintf("carriers=%d", ncar))
+		if c.Base.Plus && strings.Contains(c.Base.Val.S, " ") {
+			ev.Class("url-blank-written-as-plus")
+		}
 		if c.UrlTwice {
 			ev.Class("url-parameter-occurs-twice")
 		}
